@@ -689,7 +689,40 @@ def _register_vector_gradient_rules() -> None:
         VectorUnarySum,
         VectorExpressionSum,
     )
-    from optyx.core.matrices import QuadraticForm
+    from optyx.core.matrices import (
+        FrobeniusNorm,
+        MatrixSum,
+        MatrixVariable,
+        QuadraticForm,
+    )
+
+    def _matrix_elements(mat: Any) -> list[Expression]:
+        """All elements of a MatrixVariable / MatrixExpression in row-major order."""
+        if isinstance(mat, MatrixVariable):
+            return [v for row in mat._variables for v in row]
+        return list(mat.flatten())
+
+    @register_gradient(MatrixSum)
+    def gradient_matrix_sum(expr: MatrixSum, wrt: Variable) -> Expression:
+        """Gradient for matrix sum: ∂(Σ X_ij)/∂x = Σ ∂X_ij/∂x.
+
+        A variable shared by several positions (symmetric matrices) contributes
+        once per position.
+        """
+        result: Expression = Constant(0.0)
+        for elem in _matrix_elements(expr.matrix):
+            result = _simplify_add(result, gradient(elem, wrt))
+        return result
+
+    @register_gradient(FrobeniusNorm)
+    def gradient_frobenius_norm(expr: FrobeniusNorm, wrt: Variable) -> Expression:
+        """Gradient for Frobenius norm: ∂||X||_F/∂x = Σ X_ij * ∂X_ij/∂x / ||X||_F."""
+        result: Expression = Constant(0.0)
+        for elem in _matrix_elements(expr.matrix):
+            d_elem = gradient(elem, wrt)
+            term = _simplify_mul(_simplify_div(elem, expr), d_elem)
+            result = _simplify_add(result, term)
+        return result
 
     @register_gradient(LinearCombination)
     def gradient_linear_combination(
